@@ -103,10 +103,12 @@ fn c01a2_rc_step_invariants() {
     assert!(b == 0 || b == 1);
     assert!(pd >= 31 && pd <= 2017, "C01-A2: decoder probability left [31, 2017]");
     assert!(dec.verif_range() >= (1 << 16), "C01-A2: decoder range below 2^16 (one normalisation no longer restores 2^24)");
-    // code < range is preserved whenever it held after normalisation
-    if range >= (1 << 24) {
-        assert!(dec.verif_code() < dec.verif_range(), "C01-A2: code >= range after a decoding step");
-    }
+    assert!(dec.verif_code() < dec.verif_range(), "C01-A2: code >= range after a decoding step");
+    // the same for one direct bit (portable loop)
+    let mut dec2 = RangeDecoder::verif_from_parts(Src::<2>::full(kani::any()), range, code);
+    let _ = dec2.decode_direct_bits(1);
+    // (a direct bit can legitimately leave code == range when the range was odd: no `code < range` claim here)
+    assert!(dec2.verif_range() >= (1 << 16), "C01-A2: direct bit leaves range below 2^16");
     kani::cover!(b == 1 && bit, "one bits");
     kani::cover!(range < (1 << 24), "decoder normalised first");
 }
